@@ -265,3 +265,34 @@ Proof.
   rewrite (strip_equiv K toks false false M aeval ex td fuel n st Hi).
   exact (run_agrees_with_source_actions K toks (strip_module M) aeval ex td fm rs' Hrb Ha Hg Hst Htr Hl Hk fuel n st Hn).
 Qed.
+
+(* ... and what generated parsers actually run: the first pass WITH the packrat cache (modules without leaders). *)
+Theorem cached_first_pass_agrees_with_source K toks M aeval ex td fm rs' :
+  reads_back_with_actions rs' (strip_module M) = true -> no_left_rec M = true ->
+  (forall xs e vs, nodup_s xs = true -> Forall2 (fun x v => env_get e x = Some v) xs vs ->
+     aeval (default_text xs) e = Some (match vs with [v] => v | _ => VList vs end)) ->
+  (forall e v vs, env_get e "elem" = Some v -> env_get e "seq" = Some (VList vs) -> aeval "[elem] + seq" e = Some (VList (v :: vs))) ->
+  (forall a, plain_alt (strip_module M) a -> a_explicit a = true -> forall e1 e0,
+     (forall x, In x (conj_vars (a_conjs a)) -> env_get e1 x <> None) -> aeval (a_action a) (e1 ++ e0)%list = aeval (a_action a) e1) ->
+  (forall a, plain_alt (strip_module M) a -> a_explicit a = true -> forall e v, aeval (a_action a) e = Some v -> truthy v = true) ->
+  (forall s t, In t toks -> is_kind2 s = false -> expect_test K ex td s t = String.eqb (tstr t) s) ->
+  (forall s t, In t toks -> is_kind2 s = true -> expect_test K ex td s t = kind2_test K M s t) ->
+  forall fuel n st, find_rule rs' n <> None -> invalid st = false -> cache st = [] ->
+  fst (run K toks false false M aeval ex td fuel n st) <> OutOfFuel ->
+  (forall v st', run K toks false true M aeval ex td fuel n st = (Ok v, st') ->
+     exists res, peg_item K rs' toks (i_keywords M) (i_soft_keywords M) (src_aeval aeval) src_names (fun _ => fm) (NameLeaf n) (pos st) res /\
+                 agrees v st st' res) /\
+  (forall ea t st', run K toks false true M aeval ex td fuel n st = (Raise (XSyntaxError ea t), st') ->
+     exists msg q, peg_item K rs' toks (i_keywords M) (i_soft_keywords M) (src_aeval aeval) src_names (fun _ => fm) (NameLeaf n) (pos st) (PErr msg q)).
+Proof.
+  intros Hrb Hlr Ha Hg Hst Htr Hl Hk fuel n st Hn Hi Hc Hd.
+  assert (Hs : sim K toks M aeval ex td (invalid st) st st).
+  { unfold sim. repeat split; auto. rewrite Hc. intros k r H. discriminate H. }
+  destruct (cache_transparent K toks M aeval ex td Hlr (invalid st) (or_introl Hi) fuel n st st Hs Hd) as (Ho & Hok).
+  destruct (first_pass_agrees_with_source K toks M aeval ex td fm rs' Hrb Ha Hg Hst Htr Hl Hk fuel n st Hn Hi) as [HOk HRaise].
+  destruct (run K toks false false M aeval ex td fuel n st) as [oU sU] eqn:EU. cbn [fst snd] in Ho, Hok.
+  split.
+  - intros v st' Hrun. rewrite Hrun in Ho, Hok. cbn [fst snd] in Ho, Hok. subst oU. destruct (Hok v eq_refl) as (Hp & _).
+    destruct (HOk v sU eq_refl) as (res & Hpi & Hag). exists res. split; [exact Hpi|]. unfold agrees in *. rewrite Hp. exact Hag.
+  - intros ea t st' Hrun. rewrite Hrun in Ho. cbn [fst] in Ho. subst oU. exact (HRaise ea t sU eq_refl).
+Qed.
